@@ -66,6 +66,24 @@ class BothCollector(Collector):
         self.sink[(data['pid'], data['name'], data['name'])].append(data['data'])
 
 
+class EqCollector(BothCollector):
+    """two DISTINCT stream objects whose configurations compare equal (what two identical `[watcher]` stream
+    sections give): each channel still has its own stream"""
+
+    def __call__(self, data):
+        if self.closed:
+            if self.late is not None:
+                self.late[(data['pid'], data['name'], data['name'])] += len(data['data'])
+            return
+        self.sink[(data['pid'], data['name'], data['name'])].append(data['data'])
+
+    def __eq__(self, other):
+        return isinstance(other, EqCollector)
+
+    def __hash__(self):
+        return 17
+
+
 def run_case(spec):
     res = CaseResult()
     rnd = rng_for(spec['seed'], 'C17', spec['idx'])
@@ -174,6 +192,14 @@ def _scenario(spec, rnd, d, logdir, res):
         'log': logdir, 'out': {'stdout': both_script['stdout'], 'stderr': both_script['stderr']}})], numprocesses=1,
         stdout_stream={'stream': both}, stderr_stream={'stream': both}, copy_env=True, graceful_timeout=1, loop=loop))
     scripts.append({'stdout': both_script['stdout'], 'stderr': both_script['stderr'], 'name': 'wr_both'})
+    # a writer whose two channels have equal configurations -- and a stream each
+    eq_script = {ch: [[rnd.choice(SIZES[:6]), rnd.choice([1, 5, 20])] for _ in range(120)] for ch in ('stdout', 'stderr')}
+    w_eq = Watcher('wr_eq', live.PY, args=['-S', live.WORKER, json.dumps({
+        'log': logdir, 'out': {'stdout': eq_script['stdout'], 'stderr': eq_script['stderr']}})], numprocesses=1,
+        stdout_stream={'stream': EqCollector('eq', sink, late)}, stderr_stream={'stream': EqCollector('eq', sink, late)},
+        copy_env=True, graceful_timeout=1, loop=loop)
+    watchers.append(w_eq)
+    scripts.append({'stdout': eq_script['stdout'], 'stderr': eq_script['stderr'], 'name': 'wr_eq'})
     # a writer that is started later, right after descriptor 0 became free in the daemon (a daemon whose standard
     # input was closed): its pipe gets descriptor number 0
     late_script = {ch: [[rnd.choice(SIZES[:6]), rnd.choice([0, 1, 5])] for _ in range(50)] for ch in ('stdout', 'stderr')}
@@ -302,6 +328,15 @@ def _scenario(spec, rnd, d, logdir, res):
                                 raise
                             yield gen.sleep(0.02)
                 info['switched'] = wsw.name
+                # ... and of the writer with equal configurations, its stdout only: stderr keeps its own stream
+                for attempt in range(100):
+                    try:
+                        w_eq.set_opt('stdout_stream.stream', EqCollector('eq', sink, late))
+                        break
+                    except Exception as e:
+                        if type(e).__name__ != 'ConflictError':
+                            raise
+                        yield gen.sleep(0.02)
             act = rnd.choice(['restart', 'reload', 'kill9', 'restart'] if not sib_stubborn else
                              ['reload', 'reload', 'kill9', 'restart'])
             try:
